@@ -27,6 +27,7 @@ MIN_NONTRIVIAL = {"quick": 1500, "thorough": 30000}
 REQUIRED_COUNTERS = {"histories": {"quick": 1500, "thorough": 30000},
                      "helper_modules_imported_during_scan": {"quick": 100, "thorough": 2000},
                      "late_module_injections": {"quick": 200, "thorough": 4000},
+                     "linepause_cases": {"quick": 100, "thorough": 200},
                      "schedules_2threads": {"quick": 300, "thorough": 5000},
                      "schedules_random": {"quick": 40, "thorough": 1000},
                      "schedules_with_overlap": {"quick": 200, "thorough": 4000},
@@ -46,6 +47,7 @@ def plan(tier, seed):
         for cfg in range(10):
             shards.append({"interp": interp, "leg": "dfs", "seed": seed, "config": cfg,
                            "max_schedules": 400 if tier == "quick" else 20000, "budget_s": 45 if tier == "quick" else 1500})
+        shards.append({"interp": interp, "leg": "linepause", "seed": seed, "budget_s": 45 if tier == "quick" else 900})
         shards.append({"interp": interp, "leg": "random", "seed": seed * 100 + 3,
                        "n": 400 if tier == "quick" else 8000, "budget_s": 45 if tier == "quick" else 1500})
     return shards
@@ -476,6 +478,106 @@ def worker(spec):
         if done and inject_idx >= len(inject_points) - 1:
             res.count("dfs_exhausted_configs")
         res.sample({"leg": "dfs", "config": [nthreads, flavors], "schedules": nsched, "exhausted": done})
+        return res
+
+    # ---- line-level pauses: thread A is stopped at its k-th executed line inside add_glue_as_needed
+    # (sys.settrace in that thread only), thread B then runs a whole extraction (it may block on the
+    # lock until A resumes), then A resumes.  Same oracle as for the hook-point schedules; this reaches
+    # switch points between the hook points.
+    if spec["leg"] == "linepause":
+        agn_code = _glue.add_glue_as_needed.__code__
+        for flavors in (["module"], ["builtin"], ["both"], ["module", "builtin"], ["raising_module", "both"]):
+            for k in range(1, 80):
+                if budget.over():
+                    res.count("budget_cut")
+                    break
+                reset()
+                mods = []
+                for j, fl in enumerate(flavors):
+                    n = names[j]
+                    m = mk(n, fl)
+                    sys.modules[n] = m
+                    if fl in ("builtin", "both", "raising_builtin"):
+                        _glue.builtin_glue_pending[n] = mk_builtin(n, fl)
+                    mods.append((n, m, fl))
+                paused = threading.Event()
+                resume = threading.Event()
+                st = {"n": 0, "hit": False}
+                returned = {}
+                wlog = []
+
+                def local_tracer(frame, event, arg):
+                    if event == "line" and not st["hit"]:
+                        st["n"] += 1
+                        if st["n"] == k:
+                            st["hit"] = True
+                            paused.set()
+                            resume.wait(30)
+                    return local_tracer
+
+                def global_tracer(frame, event, arg):
+                    return local_tracer if frame.f_code is agn_code else None
+
+                def thread_a():
+                    sys.settrace(global_tracer)
+                    try:
+                        with warnings.catch_warnings(record=True) as w:
+                            warnings.simplefilter("always")
+                            stackscope.extract(0)
+                        wlog.extend(w)
+                    finally:
+                        sys.settrace(None)
+                    returned["a"] = len(LOG)
+
+                def thread_b():
+                    with warnings.catch_warnings(record=True) as w:
+                        warnings.simplefilter("always")
+                        stackscope.extract(0)
+                    wlog.extend(w)
+                    returned["b"] = len(LOG)
+
+                ta = threading.Thread(target=thread_a, daemon=True)
+                ta.start()
+                if not paused.wait(5):
+                    resume.set()
+                    ta.join(30)
+                    break   # fewer than k line events: all pause points explored
+                tb = threading.Thread(target=thread_b, daemon=True)
+                tb.start()
+                tb.join(0.05)
+                resume.set()
+                ta.join(30)
+                tb.join(30)
+                res.evaluations += 1
+                res.count("linepause_cases")
+                res.nontrivial(interp, "linepause", tuple(flavors), k)
+                problems = []
+                starts = collections.Counter((e[1], e[2], e[3]) for e in LOG if e[0] == "start")
+                for key, v in starts.items():
+                    if v > 1:
+                        problems.append("glue %r ran %d times" % (key, v))
+                kinds_by_name = collections.defaultdict(set)
+                for e in LOG:
+                    if e[0] == "start":
+                        kinds_by_name[e[2]].add(e[1])
+                for n, ks in kinds_by_name.items():
+                    if len(ks) > 1:
+                        problems.append("both kinds of glue ran for %s" % n)
+                for n, m, fl in mods:
+                    want = ("module", n, id(m)) if fl in ("module", "both", "raising_module") else (
+                        ("builtin", n, None) if fl in ("builtin", "raising_builtin") else None)
+                    if want is None:
+                        continue
+                    if starts.get(want, 0) != 1:
+                        problems.append("glue %r ran %d times, expected exactly once" % (want, starts.get(want, 0)))
+                    ends = [i for i, e in enumerate(LOG) if e[0] == "end" and (e[1], e[2], e[3]) == want]
+                    for who in ("a", "b"):
+                        if who in returned and (not ends or ends[0] >= returned[who]):
+                            problems.append("thread %s's extract returned before glue %r had finished" % (who, want))
+                if problems:
+                    res.violation(kind="glue line-pause schedule", flavors=flavors, paused_at_line_event=k,
+                                  problems=problems[:4], interp=interp)
+        res.sample({"leg": "linepause"})
         return res
 
     for case in range(spec["n"]):
